@@ -87,8 +87,8 @@ B('C02', 'gaps accepted although disallowed', THEORY,
 B('C02', 'gap not reported', THEORY,
   '            if rpt is not None:\n                rpt.add_gap(seq.th)\n            return None', '            return None', 'C02.P2', 'sorry :: reported')
 B('C02', 'no_gaps not forwarded into macro expansion', THEORY,
-  '                    for s in seq.subproof.items:\n                        self._check_proof_item(prf, s, rpt, no_gaps, compute_only, check_level)\n                    res_th = seq.subproof.items[-1].th\n                    seq.subproof = None',
-  '                    for s in seq.subproof.items:\n                        self._check_proof_item(prf, s, rpt, False, compute_only, check_level)\n                    res_th = seq.subproof.items[-1].th\n                    seq.subproof = None',
+  '                    self._check_proof_items(prf, seq.subproof.items, seq.id.id, rpt, no_gaps, compute_only, check_level)\n                    res_th = seq.subproof.items[-1].th\n                    seq.subproof = None',
+  '                    self._check_proof_items(prf, seq.subproof.items, seq.id.id, rpt, False, compute_only, check_level)\n                    res_th = seq.subproof.items[-1].th\n                    seq.subproof = None',
   'C02.P2', 'forwards-flags')
 B('C02', 'stated sequent not compared', THEORY,
   '        elif not res_th.can_prove(seq.th):', '        elif False:', 'C02.P3', 'after(res_th')
@@ -106,8 +106,8 @@ B('C02', 'axiom not reported', THEORY,
 B('C02', 'ProofTerm.check does not report gaps', 'kernel/proofterm.py',
   "            elif pt.rule == 'sorry':\n                rpt.add_gap(pt.th)", "            elif pt.rule == 'sorry':\n                pass", 'C02.P5', 'sorry :: reported')
 B('C02', 'check_proof skips the last item', THEORY,
-  '        for seq in prf.items:\n            self._check_proof_item(prf, seq, rpt, no_gaps, compute_only, check_level)\n\n        return prf.items[-1].th',
-  '        for seq in prf.items[:-1]:\n            self._check_proof_item(prf, seq, rpt, no_gaps, compute_only, check_level)\n\n        return prf.items[-1].th',
+  '        self._check_proof_items(prf, prf.items, tuple(), rpt, no_gaps, compute_only, check_level)\n\n        return prf.items[-1].th',
+  '        self._check_proof_items(prf, prf.items[:-1], tuple(), rpt, no_gaps, compute_only, check_level)\n\n        return prf.items[-1].th',
   'C02.P7', 'all-items')
 B('C02', 'unknown extension kind silently skipped', THEORY,
   '            elif ext.is_overload():\n                self.add_overload_const(ext.name)\n            else:\n                raise TypeError\n\n        return ext_report',
@@ -953,8 +953,8 @@ N('C20', 'capture test as a loop', IEXPR,
   "        if any(occurs_var(t, self.var.name) for t in inst.values()):\n            raise NotImplementedError\n",
   "        for t in inst.values():\n            if occurs_var(t, self.var.name):\n                raise NotImplementedError\n")
 B('C16', 'input rows inserted without gcd reduction', 'prover/omega.py',
-  "        df = dfactoid(ft, ASM(ft))\n        # Reduce gcd, as for derived factoids: the analysis of a single\n        # variable relies on unit coefficients.\n        g = functools.reduce(gcd, df.factoid[:-1], 0)\n        if g > 1:\n            elim_gcd_factoid = [i // g for i in df.factoid]\n            df = dfactoid(Factoid(elim_gcd_factoid), GCDCheck(df.deriv))\n        insert_db(db, df)",
-  "        insert_db(db, dfactoid(ft, ASM(ft)))", 'C16.O5', 'solve_matrix')
+  "        g = functools.reduce(gcd, df.factoid[:-1], 0)\n        if g > 1:\n            elim_gcd_factoid = [i // g for i in df.factoid]\n            df = dfactoid(Factoid(elim_gcd_factoid), GCDCheck(df.deriv))\n        # A row without variables",
+  "        # A row without variables", 'C16.O5', 'solve_matrix')
 B('C16', 'gcd of derived rows without the initial value', 'prover/omega.py',
   "            g = functools.reduce(gcd, df.factoid[:-1], 0)\n            if g > 1:", "            g = functools.reduce(gcd, df.factoid[:-1])\n            if g > 1:", 'C16.O5', 'extend_cross_product')
 N('C16', 'gcd of derived rows over absolute values', 'prover/omega.py',
